@@ -3,7 +3,10 @@
 
   Statements about SA.Model.DnsServer (server handler, fixed code) and SA.Model.DnsServerClient (client answer decoder,
   fixed code), in which every index / slice / nil-func call of the Go code is an explicit, possibly panicking
-  operation.  The codecs are a parameter (`Codec`): every theorem holds for every behaviour of Decode.
+  operation.  The codecs are a parameter (`Codec`): every theorem holds for every behaviour of Decode that is *total*
+  (`Codec.Total`: Decode returns a value or an error on every input).  The models call the decoders through
+  `Codec.decode`, which panics where the decoder does; `C12_decoder_panic_propagates_*` show that the hypothesis is
+  necessary.  The harness ties `Total` to the real decoders (exhaustive octet / octet-pair sweep, PANIC oracle entries).
 -/
 import SA.Proofs.DnsServer
 import SA.Proofs.DnsServerClient
@@ -16,33 +19,50 @@ open SA.Go SA.Go.Res SA.DnsServer
 /-- **server no panic**: in every state satisfying the invariant, for every codec behaviour, every tunnel domain and
     every one-question message (any name bytes, any record type, any source address) the handler returns normally
     (an answer or an error), re-establishes the invariant and touches no session of another address. -/
-theorem C12_server_no_panic (cd : Codec) (dom : List Nat) (σ : Srv) (hI : Inv σ) (m : Msg) :
+theorem C12_server_no_panic (cd : Codec) (hT : cd.Total) (dom : List Nat) (σ : Srv) (hI : Inv σ) (m : Msg) :
     ∃ σ' a, onMessage cd dom σ m = ok (σ', a) ∧ Inv σ' := by
-  obtain ⟨σ', a, h, hI', _⟩ := onMessage_good cd dom hI m
+  obtain ⟨σ', a, h, hI', _⟩ := onMessage_good cd hT dom hI m
   exact ⟨σ', a, h, hI'⟩
 
 /-- … in particular after every history from a fresh listener -/
-theorem C12_server_no_panic_reachable (cd : Codec) (dom : List Nat) (ops : List Op) (m : Msg) :
+theorem C12_server_no_panic_reachable (cd : Codec) (hT : cd.Total) (dom : List Nat) (ops : List Op) (m : Msg) :
     onMessage cd dom (run cd dom Srv.init ops) m ≠ panic := by
-  obtain ⟨σ', a, h, _⟩ := C12_server_no_panic cd dom _ (SA.Props.C13.C13_reachable_invariant cd dom ops) m
+  obtain ⟨σ', a, h, _⟩ := C12_server_no_panic cd hT dom _ (SA.Props.C13.C13_reachable_invariant cd hT dom ops) m
   rw [h]; intro h'; cases h'
 
 /-- **client no panic**: for every answer section (no records, records shorter than their order tag, mixed types, names
     shorter than the domain, any data bytes) and every codec behaviour the client decoder returns normally. -/
-theorem C12_client_no_panic (cd : Codec) (domLen down : Nat) (rrs : List SA.DnsClient.RR) :
+theorem C12_client_no_panic (cd : Codec) (hT : cd.Total) (domLen down : Nat) (rrs : List SA.DnsClient.RR) :
     SA.DnsClient.decodeAnswer cd domLen down rrs ≠ panic := by
-  obtain ⟨r, h⟩ := SA.DnsClient.decodeAnswer_no_panic cd domLen down rrs
+  obtain ⟨r, h⟩ := SA.DnsClient.decodeAnswer_no_panic cd hT domLen down rrs
   rw [h]; intro h'; cases h'
+
+/-- a decoder that panics on every input, for the witnesses below -/
+def panickyCodec : Codec := { dec := fun _ _ => none, encLen := fun _ n => n, panics := fun _ _ => true }
+
+/-- **the totality hypothesis is necessary (server)**: with a decoder that panics, one version request
+    ("vabc<body>.t.co.") from a fresh listener kills the handler — exactly what happens in the Go process, where
+    miekg/dns does not recover. -/
+theorem C12_decoder_panic_propagates_server :
+    onMessage panickyCodec [116, 46, 99, 111] Srv.init
+      { addr := 1, qtype := 5, name := [118, 97, 98, 99, 97, 97, 46, 116, 46, 99, 111, 46], hint := 84 } = panic := by
+  decide
+
+/-- **the totality hypothesis is necessary (client)**: one NULL answer whose data starts with the error-response
+    letter makes the client decoder panic when the downstream decoder does. -/
+theorem C12_decoder_panic_propagates_client :
+    SA.DnsClient.decodeAnswer panickyCodec 4 84 [.null [1, 0, 101, 97, 97]] = panic := by
+  decide
 
 /-! ## bounded work -/
 
 /-- **bounded work (1)**: in every reachable state every session's downstream fragment size — the chunk size of the
     server-side Write loop — is between 1 and MaxDownstreamFragmentSize, whatever sizes clients asked for. -/
-theorem C12_bounded_work_fragment_range (cd : Codec) (dom : List Nat) (ops : List Op) (sid : Nat)
+theorem C12_bounded_work_fragment_range (cd : Codec) (hT : cd.Total) (dom : List Nat) (ops : List Op) (sid : Nat)
     (h : sid < (run cd dom Srv.init ops).heap.length) :
     1 ≤ ((run cd dom Srv.init ops).sess sid).frag ∧
     ((run cd dom Srv.init ops).sess sid).frag ≤ SA.Gen.maxDownstreamFragmentSize :=
-  (SA.Props.C13.C13_reachable_invariant cd dom ops).fragOk sid h
+  (SA.Props.C13.C13_reachable_invariant cd hT dom ops).fragOk sid h
 
 theorem chunks_flatten (mtu : Nat) (hm : 1 ≤ mtu) : ∀ (fuel : Nat) (b : List Nat), b.length ≤ fuel →
     (chunks fuel mtu b).flatten = b ∧ (chunks fuel mtu b).length ≤ b.length
@@ -167,15 +187,19 @@ example : stripDomain mailName tco = ok [109, 97, 105, 108] := by decide
 example : findCmd SA.Gen.commandTable [109, 97, 105, 108] = ok (some (109, false, false, false)) := by decide
 example : stripDomain [97, 92, 46, 116, 46, 99, 111, 46] tco = ok [97] := by decide   -- "a\.t.co." : dangling backslash
 example : decodeHeader true [99, 97] = ok none := by decide                           -- "ca"
-example : SA.DnsClient.decodeAnswer ⟨fun _ _ => none, fun _ n => n⟩ 4 84 [] = ok none := by decide
-example : SA.DnsClient.decodeAnswer ⟨fun _ _ => none, fun _ n => n⟩ 4 84 [.txt [], .null [1], .cname [97]] = ok none := by decide
+example : SA.DnsClient.decodeAnswer { dec := fun _ _ => none, encLen := fun _ n => n } 4 84 [] = ok none := by decide
+example : SA.DnsClient.decodeAnswer { dec := fun _ _ => none, encLen := fun _ n => n } 4 84 [.txt [], .null [1], .cname [97]] = ok none := by decide
 example : chunks 3 1 [7, 8, 9] = [[7], [8], [9]] := by decide
+example : ({ dec := fun _ _ => none, encLen := fun _ n => n } : Codec).Total := fun _ _ => rfl   -- the hypothesis is satisfiable
+example : ¬ panickyCodec.Total := fun h => by have := h 0 []; simp [panickyCodec] at this
 
 end SA.Props.C12
 
 #print axioms SA.Props.C12.C12_server_no_panic
 #print axioms SA.Props.C12.C12_server_no_panic_reachable
 #print axioms SA.Props.C12.C12_client_no_panic
+#print axioms SA.Props.C12.C12_decoder_panic_propagates_server
+#print axioms SA.Props.C12.C12_decoder_panic_propagates_client
 #print axioms SA.Props.C12.C12_bounded_work_fragment_range
 #print axioms SA.Props.C12.C12_bounded_work_write_loop
 #print axioms SA.Props.C12.C12_bounded_work_fragment_test
